@@ -92,7 +92,7 @@ def n_translated():
 
 
 # translated but not (yet) tied to the model by a proven equation: not counted, not named in any obligation
-UNPROVEN = ["gen_SparseVector_load_full", "gen_WMCore_load_full", "gen_WaveletMatrix_load_full2"]
+UNPROVEN = []
 
 
 def main():
